@@ -457,6 +457,7 @@ func (x *Exec) resolveGoVar(fr *Frame, at *ssa.BasicBlock, name string, st *Stat
 	if best != nil {
 		if _, isParam := best.v.(*ssa.Parameter); !isParam {
 			if _, isFV := best.v.(*ssa.FreeVar); !isFV {
+				x.noteIdentKind(fr, name, "local")
 				v := x.val(fr, best.v)
 				if best.isAddr && v.K == KPtr {
 					return x.load(st, v.P, best.v.Type().(*types.Pointer).Elem())
@@ -467,11 +468,13 @@ func (x *Exec) resolveGoVar(fr *Frame, at *ssa.BasicBlock, name string, st *Stat
 	}
 	for i, p := range fr.fn.Params {
 		if p.Name() == name {
+			x.noteIdentKind(fr, name, "param")
 			return fr.params[i]
 		}
 	}
 	for i, fv := range fr.fn.FreeVars {
 		if fv.Name() == name {
+			x.noteIdentKind(fr, name, "captured")
 			v := fr.bind[i]
 			if v.K == KPtr {
 				return x.load(st, v.P, fv.Type().(*types.Pointer).Elem())
@@ -1542,6 +1545,27 @@ func (env *SpecEnv) loopIdx(n int) *Value {
 			return scalar(tInt, Add(env.x.val(env.fr, phi).Term, IntLit(1)))
 		}
 	}
+	// the same loop written with an explicit counter (`for i := 0; i < len(s); i++`): the counter is the number
+	// of completed iterations
+	var cand *ssa.Phi
+	for _, in := range li.header.Instrs {
+		phi, ok := in.(*ssa.Phi)
+		if !ok {
+			break
+		}
+		if lo, ok := countingPhi(phi, li); ok && lo == 0 {
+			if st, ok2 := phiStep(phi); ok2 && st == 1 {
+				if cand != nil {
+					cand = nil // two counters: ambiguous
+					break
+				}
+				cand = phi
+			}
+		}
+	}
+	if cand != nil {
+		return scalar(tInt, env.x.val(env.fr, cand).Term)
+	}
 	specFail("loop %d has no range index", n)
 	return nil
 }
@@ -2024,4 +2048,19 @@ func (env *SpecEnv) addrOfLocal(name string) *Value {
 		}
 	}
 	return nil
+}
+
+// noteIdentKind records what kind of Go variable a contract identifier resolved to in the function under contract
+// (part of the fit fingerprint, check.go).
+func (x *Exec) noteIdentKind(fr *Frame, name, kind string) {
+	if fr == nil || fr.fn != x.root {
+		return
+	}
+	if x.fitIdents == nil {
+		x.fitIdents = map[string]map[string]bool{}
+	}
+	if x.fitIdents[name] == nil {
+		x.fitIdents[name] = map[string]bool{}
+	}
+	x.fitIdents[name][kind] = true
 }
